@@ -36,7 +36,7 @@ Lemma ps_obs_copy_rw : forall la lt fuel ho hn skip, ps_rw ho hn (ps_obs_copy la
 Proof.
   induction fuel as [|f IH]; intros; cbn [ps_obs_copy]; [constructor|].
   apply ps_rw_bind; [apply ps_obs_read_rw|]. intros [r|]; [|constructor].
-  destruct (ps_beq (ob_key r) skip); [apply IH|].
+  destruct (ps_beq (pso_key r) skip); [apply IH|].
   apply ps_rw_bind; [apply ps_obs_write_rw|]. intros [|]; [apply IH|constructor].
 Qed.
 
@@ -44,7 +44,7 @@ Lemma ps_dyn_copy_rw : forall fuel ho hn name, ps_rw ho hn (ps_dyn_copy fuel ho 
 Proof.
   induction fuel as [|f IH]; intros; cbn [ps_dyn_copy]; [constructor|].
   apply ps_rw_bind; [apply ps_dyn_read_rw|]. intros [r|]; [|constructor].
-  destruct (ps_beq name (dy_name r)); [apply IH|].
+  destruct (ps_beq name (psd_name r)); [apply IH|].
   apply ps_rw_bind; [apply ps_dyn_write_rw|]. intros [|]; [apply IH|constructor].
 Qed.
 
@@ -92,8 +92,8 @@ Lemma ps_pure_obs_read : forall la lt h r rest,
   ps_pure (ps_obs_read la lt h) (ps_obs_enc r ++ rest) = (Some r, rest, []).
 Proof.
   intros la lt h [key proto listen tuple pkt osc] rest Hla Hlt (Hk & Hp & Hl & Ht & Hpk & Ho).
-  cbn [ob_key ob_proto ob_listen ob_tuple ob_pkt ob_osc] in *.
-  unfold ps_obs_read, ps_obs_enc. cbn [ob_key ob_proto ob_listen ob_tuple ob_pkt ob_osc].
+  cbn [pso_key pso_proto pso_listen pso_tuple pso_pkt pso_osc] in *.
+  unfold ps_obs_read, ps_obs_enc. cbn [pso_key pso_proto pso_listen pso_tuple pso_pkt pso_osc].
   rewrite <- !app_assoc. unfold PS_MAX in *.
   rewrite ps_pure_rd, (ps_item_app PS_KEY key) by (assumption || reflexivity).
   rewrite ps_pure_rd, (ps_item_app PS_PROTO proto) by (assumption || reflexivity).
@@ -125,8 +125,8 @@ Lemma ps_pure_obs_write : forall la lt h r inp,
   ps_pure (ps_obs_write h r) inp = (true, inp, ps_obs_enc r).
 Proof.
   intros la lt h [key proto listen tuple pkt osc] inp Hla Hlt (Hk & Hp & Hl & Ht & Hpk & Ho).
-  cbn [ob_key ob_proto ob_listen ob_tuple ob_pkt ob_osc] in *.
-  unfold ps_obs_write, ps_obs_enc. cbn [ob_key ob_proto ob_listen ob_tuple ob_pkt ob_osc].
+  cbn [pso_key pso_proto pso_listen pso_tuple pso_pkt pso_osc] in *.
+  unfold ps_obs_write, ps_obs_enc. cbn [pso_key pso_proto pso_listen pso_tuple pso_pkt pso_osc].
   unfold PS_KEY, PS_PROTO in *.
   rewrite ps_pure_wr by (apply ps_len_nonnil; lia). cbn [negb].
   rewrite ps_pure_wr by (apply ps_len_nonnil; lia). cbn [negb].
@@ -145,8 +145,8 @@ Qed.
 Lemma ps_pure_dyn_read : forall h r rest,
   ps_dyn_wf r -> ps_pure (ps_dyn_read h) (ps_dyn_enc r ++ rest) = (Some r, rest, []).
 Proof.
-  intros h [proto name pkt] rest (Hp & Hn & Hk). cbn [dy_proto dy_name dy_pkt] in *.
-  unfold ps_dyn_read, ps_dyn_enc. cbn [dy_proto dy_name dy_pkt].
+  intros h [proto name pkt] rest (Hp & Hn & Hk). cbn [psd_proto psd_name psd_pkt] in *.
+  unfold ps_dyn_read, ps_dyn_enc. cbn [psd_proto psd_name psd_pkt].
   rewrite <- !app_assoc. unfold PS_MAX in *. pose proof (len_nonneg name) as Hn0.
   rewrite ps_pure_rd, (ps_item_app PS_PROTO proto) by (assumption || reflexivity).
   rewrite ps_pure_rd, (ps_item_app PS_LEN (ps_enc_size (len name)))
@@ -174,8 +174,8 @@ Proof. intros. unfold ps_dyn_read. rewrite ps_pure_rd, ps_item_nil. reflexivity.
 Lemma ps_pure_dyn_write : forall h r inp,
   ps_dyn_wf r -> ps_pure (ps_dyn_write h r) inp = (true, inp, ps_dyn_enc r).
 Proof.
-  intros h [proto name pkt] inp (Hp & Hn & Hk). cbn [dy_proto dy_name dy_pkt] in *.
-  unfold ps_dyn_write, ps_dyn_enc. cbn [dy_proto dy_name dy_pkt]. unfold PS_PROTO in *.
+  intros h [proto name pkt] inp (Hp & Hn & Hk). cbn [psd_proto psd_name psd_pkt] in *.
+  unfold ps_dyn_write, ps_dyn_enc. cbn [psd_proto psd_name psd_pkt]. unfold PS_PROTO in *.
   rewrite ps_pure_wr by (apply ps_len_nonnil; lia). cbn [negb].
   rewrite ps_pure_wr by (apply ps_len_nonnil; rewrite ps_len_enc_size; reflexivity). cbn [negb].
   destruct name as [|b name].
@@ -191,9 +191,9 @@ Qed.
 
 (* the specifications the copy loops are measured against *)
 Definition ps_obs_without (key : bytes) (l : list ps_obs) : list ps_obs :=
-  filter (fun r => negb (ps_beq (ob_key r) key)) l.
+  filter (fun r => negb (ps_beq (pso_key r) key)) l.
 Definition ps_dyn_without (name : bytes) (l : list ps_dyn) : list ps_dyn :=
-  filter (fun r => negb (ps_beq name (dy_name r))) l.
+  filter (fun r => negb (ps_beq name (psd_name r))) l.
 Definition ps_cnt_without (name : bytes) (l : list (bytes * Z)) : list (bytes * Z) :=
   filter (fun e => negb (ps_beq name (fst e))) l.
 
@@ -209,7 +209,7 @@ Proof.
     cbn [ps_obs_copy ps_obs_file ps_obs_without filter].
     rewrite ps_pure_bind, ps_pure_obs_read by assumption.
     assert (Hl : (length l < fuel)%nat) by (cbn in Hf; lia).
-    destruct (ps_beq (ob_key r) skip); cbn [negb].
+    destruct (ps_beq (pso_key r) skip); cbn [negb].
     + rewrite (IH fuel) by assumption. reflexivity.
     + rewrite ps_pure_bind, (ps_pure_obs_write la lt) by assumption.
       rewrite (IH fuel) by assumption. cbn [app ps_obs_file]. reflexivity.
@@ -227,7 +227,7 @@ Proof.
     cbn [ps_dyn_copy ps_dyn_file ps_dyn_without filter].
     rewrite ps_pure_bind, ps_pure_dyn_read by assumption.
     assert (Hl : (length l < fuel)%nat) by (cbn in Hf; lia).
-    destruct (ps_beq name (dy_name r)); cbn [negb].
+    destruct (ps_beq name (psd_name r)); cbn [negb].
     + rewrite (IH fuel) by assumption. reflexivity.
     + rewrite ps_pure_bind, ps_pure_dyn_write by assumption.
       rewrite (IH fuel) by assumption. cbn [app ps_dyn_file]. reflexivity.
@@ -329,7 +329,7 @@ Section Steps.
     assert (Ho1 : ps_out pol s hn [] true false =
                   Some (mkPsS (ps_append (PsTmp f) (pend ++ []) (ps_fs s))
                               (ps_hput hn (mkPsH (PsTmp f) md dd q [] true) (ps_hs s)) (ps_next s))).
-    { unfold ps_out. rewrite Hh. cbn [ph_open ph_mode ph_pend ph_name ph_data ph_pos].
+    { unfold ps_out. rewrite Hh. cbn [psh_open psh_mode psh_pend psh_name psh_data psh_pos].
       rewrite Hw. reflexivity. }
     rewrite Ho1. set (s1 := mkPsS _ _ _).
     assert (Hd1 : ps_get (PsTmp f) (ps_fs s1) = Some W).
@@ -340,12 +340,12 @@ Section Steps.
     { intro i. rewrite <- HV. subst s1. unfold ps_view. cbn [ps_fs].
       apply ps_get_append_other. discriminate. }
     unfold ps_then. cbn [ps_run]. unfold ps_step at 1. rewrite Hh1.
-    cbn [ph_open ph_mode]. rewrite Hw.
+    cbn [psh_open psh_mode]. rewrite Hw.
     (* fclose new *)
     assert (Ho2 : ps_out pol s1 hn [] true true =
                   Some (mkPsS (ps_append (PsTmp f) ([] ++ []) (ps_fs s1))
                               (ps_hput hn (mkPsH (PsTmp f) md dd q [] false) (ps_hs s1)) (ps_next s1))).
-    { unfold ps_out. rewrite Hh1. cbn [ph_open ph_mode ph_pend ph_name ph_data ph_pos].
+    { unfold ps_out. rewrite Hh1. cbn [psh_open psh_mode psh_pend psh_name psh_data psh_pos].
       rewrite Hw. reflexivity. }
     rewrite Ho2. set (s2 := mkPsS _ _ _).
     assert (Hd2 : ps_get (PsTmp f) (ps_fs s2) = Some W).
@@ -367,7 +367,7 @@ Section Steps.
       cbn [ps_run].
       assert (Hho2 : ps_hget ho (ps_hs s2) = Some (mkPsH n PsR F pos pd true)).
       { subst s2 s1. cbn [ps_hs]. rewrite !ps_hget_hput_other by exact Hne. exact Hho. }
-      unfold ps_then. cbn [ps_run]. unfold ps_step at 1. rewrite Hho2. cbn [ph_open ph_mode ps_writable].
+      unfold ps_then. cbn [ps_run]. unfold ps_step at 1. rewrite Hho2. cbn [psh_open psh_mode ps_writable].
       apply Hfin. reflexivity.
     - apply Hfin. reflexivity.
   Qed.
@@ -500,13 +500,13 @@ Section Txn.
     0 < la -> 0 < lt -> Forall (ps_obs_wf la lt) l -> ps_obs_wf la lt a -> (length l < fuel)%nat ->
     ps_holds ps_obs_file (ps_view s PS_OBS) l ->
     exists s', ps_run pol (ps_obs_added la lt fuel a) s = (1, s') /\
-      ps_view s' PS_OBS = Some (ps_obs_file (ps_obs_without (ob_key a) l ++ [a])) /\
+      ps_view s' PS_OBS = Some (ps_obs_file (ps_obs_without (pso_key a) l ++ [a])) /\
       (forall j, j <> PS_OBS -> ps_view s' j = ps_view s j).
   Proof.
     intros la lt fuel a l s Hla Hlt Hwf Ha Hf [Hv|[Hv Hl]]; unfold ps_obs_added.
     - destruct (ps_txn_run_some PS_OBS false 0
-                  (fun ho hn => ps_obs_copy la lt fuel ho hn (ob_key a)) (fun hn => ps_obs_write hn a)
-                  s (ps_obs_file l) (ps_obs_file (ps_obs_without (ob_key a) l)) (ps_obs_enc a) Hv)
+                  (fun ho hn => ps_obs_copy la lt fuel ho hn (pso_key a)) (fun hn => ps_obs_write hn a)
+                  s (ps_obs_file l) (ps_obs_file (ps_obs_without (pso_key a) l)) (ps_obs_enc a) Hv)
         as (s' & Hr & Hv' & Ho).
       + intros. apply ps_obs_copy_rw.
       + intros. apply ps_obs_write_wo.
@@ -516,7 +516,7 @@ Section Txn.
         rewrite Hv', ps_obs_file_app. cbn [ps_obs_file]. rewrite app_nil_r. reflexivity.
     - subst l.
       destruct (ps_txn_run_none PS_OBS 0
-                  (fun ho hn => ps_obs_copy la lt fuel ho hn (ob_key a)) (fun hn => ps_obs_write hn a)
+                  (fun ho hn => ps_obs_copy la lt fuel ho hn (pso_key a)) (fun hn => ps_obs_write hn a)
                   s (ps_obs_enc a) Hv) as (s' & Hr & Hv' & Ho).
       + intros. apply ps_obs_write_wo.
       + intros. apply (ps_pure_obs_write la lt); assumption.
@@ -551,13 +551,13 @@ Section Txn.
     Forall ps_dyn_wf l -> ps_dyn_wf a -> (length l < fuel)%nat ->
     ps_holds ps_dyn_file (ps_view s PS_DYN) l ->
     exists s', ps_run pol (ps_dyn_added fuel a) s = (1, s') /\
-      ps_view s' PS_DYN = Some (ps_dyn_file (ps_dyn_without (dy_name a) l ++ [a])) /\
+      ps_view s' PS_DYN = Some (ps_dyn_file (ps_dyn_without (psd_name a) l ++ [a])) /\
       (forall j, j <> PS_DYN -> ps_view s' j = ps_view s j).
   Proof.
     intros fuel a l s Hwf Ha Hf [Hv|[Hv Hl]]; unfold ps_dyn_added.
     - destruct (ps_txn_run_some PS_DYN false 0
-                  (fun ho hn => ps_dyn_copy fuel ho hn (dy_name a)) (fun hn => ps_dyn_write hn a)
-                  s (ps_dyn_file l) (ps_dyn_file (ps_dyn_without (dy_name a) l)) (ps_dyn_enc a) Hv)
+                  (fun ho hn => ps_dyn_copy fuel ho hn (psd_name a)) (fun hn => ps_dyn_write hn a)
+                  s (ps_dyn_file l) (ps_dyn_file (ps_dyn_without (psd_name a) l)) (ps_dyn_enc a) Hv)
         as (s' & Hr & Hv' & Ho).
       + intros. apply ps_dyn_copy_rw.
       + intros. apply ps_dyn_write_wo.
@@ -567,7 +567,7 @@ Section Txn.
         rewrite Hv', ps_dyn_file_app. cbn [ps_dyn_file]. rewrite app_nil_r. reflexivity.
     - subst l.
       destruct (ps_txn_run_none PS_DYN 0
-                  (fun ho hn => ps_dyn_copy fuel ho hn (dy_name a)) (fun hn => ps_dyn_write hn a)
+                  (fun ho hn => ps_dyn_copy fuel ho hn (psd_name a)) (fun hn => ps_dyn_write hn a)
                   s (ps_dyn_enc a) Hv) as (s' & Hr & Hv' & Ho).
       + intros. apply ps_dyn_write_wo.
       + intros. apply ps_pure_dyn_write; assumption.
